@@ -67,6 +67,11 @@ def gen_case(rng, idx, force=None):
     c['body'] = 'ret' if is_lambda else rng.choice(BODIES)
     c['super'] = rng.choice([None, 'super', 'class', 'both']) if kind in ('method', 'classmethod') else None
     c['bind'] = rng.choice(['bound', 'bound', 'unbound']) if kind == 'method' else 'bound'
+    # receiver of the bound method is falsy (defines __len__ -> 0 / __bool__ -> False)
+    c['falsy_self'] = rng.choice([None, None, 'len', 'bool']) if kind == 'method' else None
+    # closure-free function re-created over the SAME code object in further namespaces (different __globals__)
+    c['namespaces'] = rng.choice([1, 2, 3]) if kind == 'toplevel' else 1
+    c['global_write'] = kind == 'toplevel' and rng.random() < 0.5
     c['decorated'] = (rng.random() < 0.4) and not is_lambda and kind not in ('method', 'classmethod')
     c['doc'] = (rng.random() < 0.3) and not is_lambda
     c['future_annotations'] = rng.random() < 0.15
@@ -141,6 +146,14 @@ def normalise(c):
         c['clear'] = None
     if c['kind'] != 'nested' or not c['free']:
         c['sibling_conv'] = False
+    c.setdefault('falsy_self', None); c.setdefault('namespaces', 1); c.setdefault('global_write', False)
+    c.setdefault('bind', 'bound')
+    if kind != 'method':
+        c['falsy_self'] = None
+    if kind != 'toplevel':
+        c['namespaces'] = 1; c['global_write'] = False
+    if c['namespaces'] > 1:
+        c['globals'] = ['g0', 'g1']          # every instance reads its own namespace's values
     return c
 
 
@@ -149,7 +162,8 @@ def shape_key(c):
     return (c['kind'], tuple((p['kind'], p['default'], p['ann']) for p in c['params']), len(c['free']),
             len(c['free_nested']), len(c['free_write']), len(c['unused']), tuple(c['empty']), tuple(c['globals']),
             c['body'], c['super'], c['decorated'], c['directive'], c['clear'], c['api'], c['recursive'],
-            c['future_annotations'], c['ret_ann'], c['sibling_conv'], c['ninst'], c.get('bind'))
+            c['future_annotations'], c['ret_ann'], c['sibling_conv'], c['ninst'], c.get('bind'),
+            c.get('falsy_self'), c.get('namespaces', 1), c.get('global_write', False))
 
 
 def nontrivial(c):
@@ -246,6 +260,8 @@ def render_function(c, name, indent, first=None, it=False, is_method=False):
         L.append(B + '"""docstring of the function."""')
     if c['free_write']:
         L.append(B + 'nonlocal ' + ', '.join(c['free_write']))
+    if c.get('global_write'):
+        L.append(B + 'global gw')
     # a per-case constant: code objects of different cases never compare equal (malt's conversion cache is keyed by
     # code-object equality, which ignores the file name; sharing conversions across modules is C10's subject)
     L.append(B + 'uid = %r' % c.get('uid', 'u'))
@@ -295,6 +311,8 @@ def render_function(c, name, indent, first=None, it=False, is_method=False):
             extra.append('comp%d' % j)
     for w in c['free_write']:
         L.append(B + '%s = (acc, %s)' % (w, firstp or '0'))
+    if c.get('global_write'):
+        L.append(B + 'gw = (acc, %s)' % (firstp or '0'))
     items = result_items(c) + ['acc'] + extra
     if d == 'closure_used':
         items.append('mdir.__name__')
@@ -344,16 +362,33 @@ def render(c):
           '    pass',
           'g0 = 1000',
           'g1 = [2000]',
+          'gw = None',
+          'def call_m(o, *a, **k):',
+          '    uid = %r' % (c.get('uid', 'u') + '-caller'),
+          '    return o.m(*a, **k)',
           '']
     kind = c['kind']
     if kind == 'toplevel':
         L += render_function(c, 'f', 0)
         L.append('')
         L.append('def build(convert):')
-        L.append("    out = {'setters': {}, 'getters': {}}")
+        L.append("    out = {'setters': {}, 'getters': {}, 'inst_setters': [], 'inst_getters': [], 'ns': [globals()]}")
         L += _clear_lines(c, '    ')
         L.append("    out['f'] = [f]")
-        L.append("    out['tf'] = [convert(f)]")
+        L.append('    import types as _types')
+        L.append('    for it in range(1, %d):' % c.get('namespaces', 1))
+        L.append('        ns = dict(globals())')
+        L.append("        ns['g0'] = 1000 + 500 * it")
+        L.append("        ns['g1'] = [2000 + 500 * it]")
+        L.append("        fk = _types.FunctionType(f.__code__, ns, f.__name__, f.__defaults__, None)")
+        L.append("        fk.__kwdefaults__ = f.__kwdefaults__")
+        L.append("        fk.__annotations__ = dict(f.__annotations__)")
+        L.append("        out['f'].append(fk)")
+        L.append("        out['ns'].append(ns)")
+        L.append("    for ns in out['ns']:")
+        L.append("        out['inst_setters'].append({'g0': (lambda v, ns=ns: ns.__setitem__('g0', v))})")
+        L.append("        out['inst_getters'].append({'g0': (lambda ns=ns: ns['g0']), 'gw': (lambda ns=ns: ns['gw'])})")
+        L.append("    out['tf'] = [convert(x) for x in out['f']]")
         L.append('    return out')
         return '\n'.join(L) + '\n'
     if kind == 'factory_loop':
@@ -452,6 +487,12 @@ def _enclosing(c, I, it=False):
         if kind == 'classmethod':
             L.append(I + '    base_m = classmethod(base_m)')
         L.append(I + 'class Derived(Base):')
+        if c.get('falsy_self') == 'len':
+            L.append(I + '    def __len__(self):')
+            L.append(I + '        return 0')
+        elif c.get('falsy_self') == 'bool':
+            L.append(I + '    def __bool__(self):')
+            L.append(I + '        return False')
         L += render_function(c, 'm', ind + 4, first=('self' if kind == 'method' else 'cls'),
                              is_method=kind)
         L.append(I + 'obj = Derived()')
